@@ -67,6 +67,7 @@ type concCfg struct {
 	futurePct  int  // % of guarded writes that name a far-future expectation
 	readers    int  // concurrent list readers (snapshot stability)
 	noIdle     bool // production sequencer timing
+	compactor  bool // a compaction loop (Compact(committed - small lag)) runs next to the clients
 	initStates []string
 }
 
@@ -86,6 +87,7 @@ type concRun struct {
 	maxDone uint64
 	floor   uint64 // compaction revision used in set-up (0 if none)
 	faultOn int32
+	compactions int64
 }
 
 func (cr *concRun) tick() int64 { return atomic.AddInt64(&cr.stamp, 1) }
@@ -319,6 +321,25 @@ func (cr *concRun) run(c *harness.Case) {
 				time.Sleep(time.Duration(50+ri*30) * time.Microsecond)
 			}
 		}(ri)
+	}
+	if cfg.compactor {
+		rwg.Add(1)
+		cseed := c.Rng.Int63()
+		go func() {
+			defer rwg.Done()
+			rr := rand.New(rand.NewSource(cseed))
+			<-startGate
+			for atomic.LoadInt32(&stop) == 0 {
+				cur := cr.n.Committed()
+				lag := uint64(rr.Intn(6))
+				if cur > cr.n.Start+lag {
+					if _, err := cr.n.B.Compact(harness.Ctx, cur-lag); err == nil {
+						atomic.AddInt64(&cr.compactions, 1)
+					}
+				}
+				time.Sleep(time.Duration(100+rr.Intn(400)) * time.Microsecond)
+			}
+		}()
 	}
 	close(startGate)
 	wg.Wait()
@@ -850,6 +871,7 @@ func (cr *concRun) checkC04(c *harness.Case) {
 		}
 	}
 	c.Stat("concurrent_lists_checked", lists)
+	c.Stat("compactions_next_to_the_clients", atomic.LoadInt64(&cr.compactions))
 	// monitor 4: a final create must become listable
 	if len(missing) == 0 {
 		atomic.StoreInt32(&cr.faultOn, 0)
